@@ -14,4 +14,5 @@ ASSUMPTIONS = ["to_owned/clone of a full_moon node reproduces its tokens and tri
 
 def run(ctx):
     return [r_skip.rule_skip_edge(ctx, "C09", statuses=("NotInRange",)), r_skip.rule_block_path(ctx, "C09"),
-            r_skip.rule_post(ctx, "C09"), r_skip.rule_eof(ctx, "C09")]
+            r_skip.rule_post(ctx, "C09"), r_skip.rule_eof(ctx, "C09"),
+            r_skip.rule_sort_guard(ctx, "C09", must_block=("NotInRange",))]
